@@ -140,11 +140,11 @@ theorem stepE_send (s s' : St) (id : Nat) (h : InvE s) (hs : step s (.send id) =
 
 /-- labels that touch none of queue/hand/batch/exported/droppedIds/seen/ffs -/
 theorem stepE_trivial (s s' : St) (l : Lbl) (h : InvE s) (hs : step s l = some s')
-    (hl : l = .wTimer ∨ l = .wStop ∨ l = .wDrainEmpty ∨ l = .sdCall ∨ l = .sdStore ∨ l = .sdClose ∨
+    (hl : l = .sdTimeout ∨ l = .wTimer ∨ l = .wStop ∨ l = .wDrainEmpty ∨ l = .sdCall ∨ l = .sdStore ∨ l = .sdClose ∨
           l = .sdExporterShutdown ∨ l = .sdReturnOk ∨ (∃ ok, l = .exportEnd ok) ∨ (∃ id, l = .accept id) ∨
           (∃ id, l = .endUnsampled id) ∨ (∃ cid, l = .sdCallLate cid) ∨ (∃ cid, l = .sdReturnLate cid)) : InvE s' := by
   obtain ⟨hok, huniq, hmh, hmp⟩ := h
-  rcases hl with hl | hl | hl | hl | hl | hl | hl | hl | ⟨ok, hl⟩ | ⟨id, hl⟩ | ⟨id, hl⟩ | ⟨cid, hl⟩ | ⟨cid, hl⟩ <;> subst hl <;> simp only [step] at hs
+  rcases hl with hl | hl | hl | hl | hl | hl | hl | hl | hl | ⟨ok, hl⟩ | ⟨id, hl⟩ | ⟨id, hl⟩ | ⟨cid, hl⟩ | ⟨cid, hl⟩ <;> subst hl <;> simp only [step] at hs
   all_goals (
     repeat' (split at hs)
     all_goals (try (simp at hs))
